@@ -8,6 +8,7 @@ import CxxModel.Theorems.DeclGen
 import CxxModel.Theorems.FnGen
 import CxxModel.Theorems.DeclPre
 import CxxModel.Theorems.ParamGen
+import CxxModel.Theorems.ArrayDecl
 import CxxModel.Theorems.MemberKinds
 namespace Cxx
 open P
@@ -53,6 +54,25 @@ def DeclToks.OK (env : Env) (F D : Nat) (v : DeclToks) : Prop :=
     (∀ p ∈ (tvs v.ops).head?, declStart p.1 = true ∧ p.2 ≠ "auto") ∧
     PrefixSpec env F (D + 1) (.type (.mk v.segs none false) v.cst v.vol) (tvs v.ops) v.d1 ∧ isFnType v.d1 = false ∧
     v.x.type = "NAME" ∧ identVal v.x.value = true ∧ v.semi.type = ";" ∧ 2 ≤ F
+
+/-- the written form `spec prefix x [ size ] ;` -/
+structure ArrDeclToks where
+  d : DeclToks
+  ob : Tok
+  content : List Tok
+  cb : Tok
+
+def ArrDeclToks.toks (v : ArrDeclToks) : List Tok := v.d.spec ++ (v.d.ops ++ (v.d.x :: v.ob :: (v.content ++ [v.cb, v.d.semi])))
+
+/-- the array type declared: the size is EXACTLY the written tokens, or absent for `[]` -/
+def ArrDeclToks.ty (v : ArrDeclToks) : DType := .array v.d.d1 (if v.content.isEmpty then none else some (valueOf v.content))
+
+def ArrDeclToks.OK (env : Env) (F D : Nat) (v : ArrDeclToks) : Prop :=
+  TypeSpecR env (F + 1) D v.d.spec v.d.segs v.d.cst v.d.vol ∧ (∃ f r, v.d.spec = f :: r ∧ specFirst f.type = true) ∧
+    (∀ p ∈ (tvs v.d.ops).head?, declStart p.1 = true ∧ p.2 ≠ "auto") ∧
+    PrefixSpec env (F + 1) (D + 1) (.type (.mk v.d.segs none false) v.d.cst v.d.vol) (tvs v.d.ops) v.d.d1 ∧ isFnType v.d.d1 = false ∧
+    isRefLike v.d.d1 = false ∧ v.d.x.type = "NAME" ∧ identVal v.d.x.value = true ∧ v.ob.type = "[" ∧
+    Nested (v.content.map (·.type)) ∧ v.cb.type = "]" ∧ v.d.semi.type = ";" ∧ v.content.length + 1 ≤ F
 
 section kinds
 variable (env : Env) (hp : RulesProgress env.cfg = true) (hnf : env.faultAt = none) (F D : Nat)
@@ -237,6 +257,54 @@ def Item.functionFull (spec : List Tok) (segs : List PQSeg) (cst vol : Bool) (op
           (fun W hW => parseParameters_gen env F D ps last cp W bc hps hl hc hcv (by rw [hW]; exact hyp) hFp)
           hy.single_inv hs h9
       exact ⟨w7, _, ev, hi7, by rw [hb]; exact .refl _, hst7, hev7, ⟨d, hk7, hid7, hpar7⟩, hmu7⟩)
+
+/-- `S prefix x [ size ] ;` at namespace scope (the loop bound is `F + 1`: the size is collected by a loop of its own) -/
+def Item.arrayVar (v : ArrDeclToks) : Item env (F + 1) (core (F + 1) (D + 1 + 1 + 1 + 1)) :=
+  Item.ofToks env (F + 1) v.toks (v.OK env F (D + 1 + 1))
+    (fun blk rest ev => ∃ dox, ItemEvent blk rest ev (.variable (plainVariable v.d.x v.ty dox)))
+    (by
+      intro w b' blk rest hst hk hmu hok hy
+      obtain ⟨hspec, ⟨f, r, hfr, hfirst⟩, hhead, hpre, hfn, hnr, hx, hxv, hob, hn, hcb, hs, hF⟩ := hok
+      unfold ArrDeclToks.toks at hy
+      rw [hfr] at hy
+      obtain ⟨b1, h1, hy⟩ := Yields.cons_inv hy
+      obtain ⟨b0, h5, hy⟩ := hy.split
+      obtain ⟨bmid, h8, hy⟩ := hy.split
+      obtain ⟨bx, h10, hy⟩ := hy.cons_inv
+      obtain ⟨bo, h11, hy⟩ := hy.cons_inv
+      have hy' : Yields env.cfg bo ((v.content ++ [v.cb]) ++ [v.d.semi]) b' := by simpa [List.append_assoc] using hy
+      obtain ⟨bc, hyc, hy⟩ := hy'.split
+      obtain ⟨d, bD, w7, ct, dox, ev, _, hi7, hsig7, _, hst7, hev7, hk7, hid7, hpar7, _, _, _, hmu7, _⟩ :=
+        toplevel_variable_array_pre env hp F (D + 1 + 1) w v.d.spec f r v.d.segs v.d.cst v.d.vol (tvs v.d.ops) v.d.ops v.d.x v.ob v.content v.cb v.d.semi v.d.d1
+          b1 b0 bmid bx bo bc b' blk rest hst hk hmu (by rw [hnf]; simp) hspec hfr hfirst h1 h5 hhead h8 hpre hfn hnr rfl h10 hx hxv
+          h11 hob hn hcb hyc hy.single_inv hs hF
+      exact ⟨w7, _, ev, hi7, hsig7, hst7, hev7, ⟨dox, hk7, hid7, hpar7⟩, hmu7⟩)
+
+/-- `S prefix x [ size ] ;` in a class body -/
+def Member.arrayField (v : ArrDeclToks) : Member env (F + 1) (core (F + 1) (D + 1 + 1 + 1 + 1)) :=
+  Member.single (fun b b' => v.OK env F (D + 1 + 1) ∧ Yields env.cfg b v.toks b')
+    (fun blk rest acc ev => ∃ dox, ItemEvent blk rest ev (.classField (plainField v.d.x v.ty acc dox)))
+    (by
+      intro b b' k ⟨hok, hy⟩ hs
+      obtain ⟨k', hy', hs'⟩ := hy.sigEq hs
+      exact ⟨k', ⟨hok, hy'⟩, hs'⟩)
+    (by
+      intro w b' blk rest acc hst hk hacc hmu ⟨hok, hy⟩
+      obtain ⟨hspec, ⟨f, r, hfr, hfirst⟩, hhead, hpre, hfn, hnr, hx, hxv, hob, hn, hcb, hs, hF⟩ := hok
+      unfold ArrDeclToks.toks at hy
+      rw [hfr] at hy
+      obtain ⟨b1, h1, hy⟩ := Yields.cons_inv hy
+      obtain ⟨b0, h5, hy⟩ := hy.split
+      obtain ⟨bmid, h8, hy⟩ := hy.split
+      obtain ⟨bx, h10, hy⟩ := hy.cons_inv
+      obtain ⟨bo, h11, hy⟩ := hy.cons_inv
+      have hy' : Yields env.cfg bo ((v.content ++ [v.cb]) ++ [v.d.semi]) b' := by simpa [List.append_assoc] using hy
+      obtain ⟨bc, hyc, hy⟩ := hy'.split
+      obtain ⟨d, bD, w7, ct, dox, ev, _, hi7, hsig7, _, hst7, hev7, hk7, hid7, hpar7, _, _, _, hmu7, _⟩ :=
+        toplevel_field_array_pre env hp F (D + 1 + 1) w v.d.spec f r v.d.segs v.d.cst v.d.vol (tvs v.d.ops) v.d.ops v.d.x v.ob v.content v.cb v.d.semi v.d.d1
+          b1 b0 bmid bx bo bc b' blk rest hst hk acc hacc hmu (by rw [hnf]; simp) hspec hfr hfirst h1 h5 hhead h8 hpre hfn hnr rfl h10 hx hxv
+          h11 hob hn hcb hyc hy.single_inv hs hF
+      exact ⟨w7, _, ev, hi7, hsig7, hst7, hev7, ⟨dox, hk7, hid7, hpar7⟩, hmu7⟩)
 
 end kinds
 
